@@ -1061,6 +1061,8 @@ class Translator:
             fid = e.get('referencedMemberDecl')
             owner = self.field_owner.get(fid)
             if owner is None:
+                owner = self.field_by_name(inner[0], e.get('name'))
+            if owner is None:
                 raise Unsupported('member %s is not a data member' % e.get('name'))
             base = self.strip(inner[0])
             if base.get('kind') == 'CXXThisExpr' and ctx.get('need_fill'):
@@ -1226,6 +1228,19 @@ class Translator:
                 return ('false' if ty[1] == 'TBool' else '(ilit I %s 0)' % ty[1]), ty
         raise Unsupported('expression of kind %s' % k)
 
+    def field_by_name(self, base, name):
+        """(C04, additive) a member access whose FieldDecl id is unknown because the expression comes from the second
+        AST dump (--filter2, ids live in another namespace): resolve the field by name in the record of the base type"""
+        if not getattr(self, 'allow_field_by_name', False) or not name:
+            return None
+        bti = self.typeinfo((base or {}).get('type', {}))
+        if bti[0] != 'rec':
+            return None
+        for i, f in enumerate(bti[1].fields):
+            if f[0] == name:
+                return (bti[1], i)
+        return None
+
     def field_index(self, r, owner):
         (orec, idx) = owner
         if orec is r:
@@ -1389,6 +1404,7 @@ def main():
     ap.add_argument('--inc', default='/verif/build/include')
     ap.add_argument('--json', default=None)
     ap.add_argument('--filter', default='rkcommon')
+    ap.add_argument('--filter2', default=None, help='(C04) filter of an additional AST dump of the same TU')
     ap.add_argument('--only', default=None, help='regex on generated names to keep')
     ap.add_argument('-D', action='append', default=[])
     a = ap.parse_args()
@@ -1398,6 +1414,21 @@ def main():
         sys.stderr.write(err[-3000:])
         sys.exit(2)
     docs = load_docs(js)
+    if a.filter2:
+        # (C04, additive) a second dump of the same TU with another filter (e.g. 'less' for the std::less<vec_t<..>>
+        # specialisations, which live in namespace std and are not reached by the filter 'rkcommon').  Node ids of the two
+        # clang runs are unrelated: the ids of the second dump are moved into their own namespace.
+        js2 = js + '.2'
+        rc, err = dump_ast(a.tu, js2, a.repo, a.inc, a.filter2, ['-D' + d for d in a.D])
+        if rc != 0:
+            sys.stderr.write(err[-3000:])
+            sys.exit(2)
+        txt = open(js2).read().replace('"0x', '"0y')
+        open(js2, 'w').write(txt)
+        docs = docs + load_docs(js2)
+        if not a.json:
+            os.remove(js2)
+        Translator.allow_field_by_name = True
     tr = Translator(docs)
     tr.translate_all()
     if a.only:
